@@ -47,6 +47,17 @@ func (e *Envelope) SetPayload(payload any) error {
 		return err
 	}
 
+	// Canonical JSON is not always valid JSON, it does not escape control
+	// characters in strings (think of a line break in a command's output).
+	// The payload must be decodable by any JSON parser, including our own
+	// loadPayload, so fall back to standard JSON encoding in that case.
+	if !json.Valid(encodedBytes) {
+		encodedBytes, err = json.Marshal(payload)
+		if err != nil {
+			return err
+		}
+	}
+
 	e.payload = payload
 	e.envelope = &dsse.Envelope{
 		Payload:     base64.StdEncoding.EncodeToString(encodedBytes),
